@@ -10,11 +10,12 @@ import (
 	specqbft "github.com/bloxapp/ssv-spec/qbft"
 	spectypes "github.com/bloxapp/ssv-spec/types"
 	tu "github.com/bloxapp/ssv-spec/types/testingutils"
+	"github.com/herumi/bls-eth-go-binary/bls"
 
 	"github.com/bloxapp/ssv/zz_verif/lib/hx"
 )
 
-var witnessFlag = flag.String("w", "", "witness set: round0 | fulldata | slotwrap | partialslot | partiallate | honestrun")
+var witnessFlag = flag.String("w", "", "witness set: round0 | fulldata | slotwrap | partialslot | partiallate | unserved | epochs | honestrun")
 
 func genWitnesses(run *hx.Run, r *hx.Rng) {
 	w := world(4)
@@ -102,6 +103,47 @@ func genWitnesses(run *hx.Run, r *hx.Rng) {
 		pm.Message.Slot = phase0.Slot(s - 50)
 		enc, _ := pm.Encode()
 		c.ValidateSSV(ssvOf(w, vMain, spectypes.BNRoleAttester, spectypes.SSVPartialSignatureMsgType, enc), at, Env{Mode: "n"}, "witness:partial-late-slot-after-honest")
+	case "unserved":
+		// C08 resource clause (seeded change C08b-m2): messages for ids this node does not serve — unknown well-formed keys in every
+		// role, liquidated / metadata-less / exited validators, a foreign domain, an invalid role, a malformed key — are refused and
+		// must leave no per-id lock or consensus state behind (oracle on the validator's internals)
+		c := NewCase(run, w, false, "witness/unserved")
+		m := tu.TestingCommitMessageWithParams(ks.Shares[2], 2, 1, specqbft.Height(s), id, root)
+		m.FullData = nil
+		body := kitSSV(w, spectypes.BNRoleAttester, m)
+		send := func(dom spectypes.DomainType, pk []byte, role spectypes.BeaconRole, kind string) {
+			c.ValidateSSV(&spectypes.SSVMessage{MsgType: body.MsgType, MsgID: spectypes.NewMsgID(dom, pk, role), Data: body.Data}, at, Env{Mode: "n"}, kind)
+		}
+		for role := spectypes.BeaconRole(0); role < 7; role++ {
+			var sk bls.SecretKey
+			_ = sk.SetLittleEndian(r.Bytes(31))
+			send(w.NetCfg.Domain, sk.GetPublicKey().Serialize(), role, "witness:unserved-unknown")
+		}
+		for _, f := range []int{vLiquid, vNoMeta, vExited} {
+			send(w.NetCfg.Domain, w.PKs[f], spectypes.BNRoleAttester, "witness:unserved-"+flavourNames[f])
+		}
+		send(spectypes.DomainType{9, 9, 9, 9}, w.PKs[vMain], spectypes.BNRoleAttester, "witness:unserved-domain")
+		send(w.NetCfg.Domain, w.PKs[vMain], spectypes.BeaconRole(77), "witness:unserved-role")
+		send(w.NetCfg.Domain, make([]byte, 48), spectypes.BNRoleAttester, "witness:unserved-key")
+		c.ValidateSSV(body, at, Env{Mode: "n"}, "witness:served")
+	case "epochs":
+		// C10 (seeded change C10b-m1): operator 1 commits for its single attester / aggregator duty in six consecutive epochs, and
+		// sends its validator-registration partial signature once per epoch; the same peer must accept every one of them
+		for _, role := range []spectypes.BeaconRole{spectypes.BNRoleAttester, spectypes.BNRoleAggregator, spectypes.BNRoleValidatorRegistration} {
+			c := NewCase(run, w, false, "witness/epochs")
+			for e := uint64(0); e < 6; e++ {
+				slot := s + 32*e + (7*e)%32
+				c.Honest = 2
+				if role == spectypes.BNRoleValidatorRegistration {
+					pre, _, _ := kitPartials(w, role, slot)
+					c.ValidateSSV(partialSSV(w, role, pre[0], slot), w.SlotStart(slot).Add(time.Second), Env{Mode: "n"}, "c10:witness-epochs")
+					continue
+				}
+				m := tu.TestingCommitMessageWithParams(ks.Shares[1], 1, 1, specqbft.Height(slot), id, root)
+				m.FullData = nil
+				c.ValidateSSV(kitSSV(w, role, m), w.SlotStart(slot).Add(5*time.Second), Env{Mode: "n"}, "c10:witness-epochs")
+			}
+		}
 	case "honestrun":
 		// one complete honest run with a prepared round change (C10)
 		t := BuildTrace(w, spectypes.BNRoleAttester, s+2, scenarios[4], r)
